@@ -181,6 +181,7 @@ type Unit struct {
 	trusted map[string]bool
 	globalFacts []*Term
 	baseAssumes int // number of leading path assumptions that come from the precondition
+	unmodelled []string // calls / values the engine had to treat as opaque (reported with failures)
 	paths int
 	loops map[*ssa.BasicBlock]int // header -> ordinal
 	loopBody map[*ssa.BasicBlock]map[*ssa.BasicBlock]bool
